@@ -166,7 +166,12 @@ func fill(v reflect.Value, vec int, counter *int) {
 					e.SetString(fmt.Sprintf("e%d_%d", *counter, k))
 				case reflect.Ptr:
 					pv := reflect.New(e.Type().Elem())
-					pv.Elem().SetInt(val)
+					if pv.Elem().Kind() == reflect.Struct {
+						pv.Elem().Field(0).SetInt(val)
+						pv.Elem().Field(1).SetString(fmt.Sprintf("m%d", val))
+					} else {
+						pv.Elem().SetInt(val)
+					}
 					e.Set(pv)
 				case reflect.Struct:
 					e.Field(0).SetInt(val)
@@ -332,7 +337,11 @@ func runOne(enc *json.Encoder, pr prog, fn reflect.Value, ft reflect.Type, args 
 				case reflect.Ptr:
 					// replace the pointer itself (the pointee may legitimately be shared)
 					pv := reflect.New(e.Type().Elem())
-					pv.Elem().SetInt(555)
+					if pv.Elem().Kind() == reflect.Struct {
+						pv.Elem().Field(0).SetInt(555)
+					} else {
+						pv.Elem().SetInt(555)
+					}
 					e.Set(pv)
 				case reflect.Struct:
 					e.Field(0).SetInt(555)
